@@ -108,6 +108,8 @@ class Scope:
         return Scope(self.dot, self.parents, self.vars, {}, self.sels, self.allow_sel, True)
 
 
+EXTREME_NUMS = [-(2 ** 63), -(2 ** 63) + 1, -1, 0, 1, 2 ** 63 - 1, 2 ** 63, 2 ** 64 - 1, 2 ** 32, 2 ** 53 + 1, 1e308, -1e308, 5e-324, 0.5,
+                -0.5, 1e19, -1e19, 2.5e-10, -(2 ** 31), 2 ** 31 - 1, 65536, 1e15, 4.5e15]
 KINDS = ["num", "int", "str", "bool", "null", "arr:num", "arr:str", "arr:obj", "arr:bool", "arr:arr", "obj", "any", "nas"]
 VARNAMES = ["v", "w", "acc", "x1", "tmp_2"]
 MACRONAMES = ["m", "f1", "helper"]
@@ -117,7 +119,7 @@ ENVNAMES = ["JAWK_VF_A", "JAWK_VF_E", "JAWK_VF_MISSING", "JAWK_VF_U"]
 
 
 class Gen:
-    def __init__(self, rng, ill_typed=0.08, maxdepth=4, funcs=None, nonascii=0.15, big_n=0.05, allow_parse_selection=True):
+    def __init__(self, rng, ill_typed=0.08, maxdepth=4, funcs=None, nonascii=0.15, big_n=0.05, allow_parse_selection=True, extreme_n=0.0):
         self.rng = rng
         self.ill = ill_typed
         self.maxdepth = maxdepth
@@ -125,11 +127,14 @@ class Gen:
         self.nonascii = nonascii
         self.big_n = big_n
         self.allow_parse_selection = allow_parse_selection
+        self.extreme_n = extreme_n      # rate of 64-bit / double boundary numbers among numeric literals (C05)
         self.used = set()
 
     # ---- leaves
     def lit(self, kind):
         r = self.rng
+        if kind in ("num", "int") and self.extreme_n and r.random() < self.extreme_n:
+            return ("lit", r.choice(EXTREME_NUMS))
         if kind in ("num",):
             return ("lit", r.choice((0, 1, 2, 3, -1, 2.5, 10, -7, 0.5, 100, 1e2, 3.0)))
         if kind == "int":
@@ -332,7 +337,7 @@ class Gen:
                 add("values", lambda g, sc, d: C("values", g("obj")))
             if ak == "arr:str":
                 add("keys", lambda g, sc, d: C("keys", g("obj")))
-                add("split", lambda g, sc, d: C("split", g("str"), ("lit", r.choice((",", " ", "a", "b", "é", "ab")))))
+                add("split", lambda g, sc, d: C("split", g("str"), ("lit", r.choice((",", " ", "a", "b", "é", "ab", "", "日", "aa"))) if r.random() < 0.8 else g("str")))
             if ak == "arr:obj":
                 add("indexed", lambda g, sc, d: C("indexed", g(self.arr_kind())))
                 add("entries", lambda g, sc, d: C("entries", g("obj")))
